@@ -21,6 +21,7 @@ type loadCase struct {
 	text    string
 	envFile string // content of env_file "envf" next to the config ("" = none)
 	part    string // content of "part.yaml" next to the config ("" = none)
+	files   map[string]string // further files next to the config (relative path -> content)
 	tasks   []string
 	pipes   []string
 }
@@ -35,6 +36,10 @@ func loadCaseRun(col *Collector, lc loadCase, tag string) {
 	}
 	if lc.part != "" {
 		os.WriteFile(filepath.Join(dir, "part.yaml"), []byte(lc.part), 0644)
+	}
+	for rel, content := range lc.files {
+		os.MkdirAll(filepath.Dir(filepath.Join(dir, rel)), 0755)
+		os.WriteFile(filepath.Join(dir, rel), []byte(content), 0644)
 	}
 	cs := Case{Tags: []string{tag, "format=" + lc.format}, NonTrivial: true}
 	cs.Replay = fmt.Sprintf("load %s [%s]: %s", lc.format, lc.desc, clipStr(strings.ReplaceAll(lc.text, "\n", "\\n"), 700))
@@ -235,6 +240,32 @@ func runC15(col *Collector, tier string, seed int64) {
 	for i, h := range shorts {
 		if h[0] >= 0x80 && i%2 == 0 {
 			add(loadCase{desc: "very short imported file", format: "yaml", text: "import: [\"part.yaml\"]\ntasks:\n  t: {command: [\"true\"]}\n", part: h, tasks: []string{"t"}}, "short-file")
+		}
+	}
+	// inclusion cycles through stages that carry a name of their own
+	for _, h := range []string{
+		"pipelines:\n  p:\n    - name: again\n      pipeline: p\n",
+		"tasks:\n  t: {command: [\"true\"]}\npipelines:\n  p:\n    - task: t\n    - name: inner\n      pipeline: q\n      depends_on: [t]\n  q:\n    - name: back\n      pipeline: p\n",
+		"pipelines:\n  p:\n    - name: one\n      pipeline: q\n  q:\n    - name: two\n      pipeline: r\n  r:\n    - name: three\n      pipeline: p\n",
+	} {
+		add(loadCase{desc: "hand-written", format: "yaml", text: h, tasks: []string{"t"}, pipes: []string{"p"}}, "degenerate")
+	}
+	// directory imports whose files import documents of other formats, next to plain files sharing their sections
+	for _, other := range []string{"json", "toml"} {
+		otherDoc := map[string]string{"json": "{\"tasks\": {\"tj\": {\"command\": [\"true\"]}}, \"variables\": {\"J\": \"1\"}}",
+			"toml": "[tasks.tj]\ncommand = [\"true\"]\n[variables]\nJ = \"1\"\n"}[other]
+		for _, first := range []string{"a", "z"} { // the importing file sorts before / after the plain one
+			plain := map[string]string{"a": "m", "z": "m"}[first]
+			files := map[string]string{
+				"parts/" + first + ".yaml": "import: [\"../shared." + other + "\"]\ntasks:\n  ta: {command: [\"true\"]}\nvariables: {A: \"1\"}\n",
+				"parts/" + plain + ".yaml": "tasks:\n  tm: {command: [\"true\"]}\nvariables: {M: \"1\"}\ncontexts:\n  c: {env: {K: v}}\n",
+				"shared." + other:          otherDoc,
+			}
+			for _, mainFmt := range []string{"yaml", "json", "toml"} {
+				text := map[string]string{"yaml": "import: [\"parts\"]\ntasks:\n  t: {command: [\"true\"]}\n", "json": "{\"import\": [\"parts\"], \"tasks\": {\"t\": {\"command\": [\"true\"]}}}",
+					"toml": "import = [\"parts\"]\n[tasks.t]\ncommand = [\"true\"]\n"}[mainFmt]
+				add(loadCase{desc: "directory import with nested " + other + " import", format: mainFmt, text: text, files: files, tasks: []string{"t", "ta", "tm", "tj"}}, "nested-imports")
+			}
 		}
 	}
 	// env_file contents
